@@ -689,10 +689,28 @@ pub fn c15(r: &mut Rng, out: &mut Out, n: usize) {
     }
 }
 
+/// the two corners as given to `BBox3D::new` (any order per component, zero extents now and then)
+pub fn any_corners(r: &mut Rng, scale: f64) -> (Point3D, Point3D) {
+    let a = r.pt(scale);
+    let mut b = r.pt(scale);
+    if r.below(6) == 0 {
+        match r.below(3) {
+            0 => b.x = a.x,
+            1 => b.y = a.y,
+            _ => b.z = a.z,
+        }
+    }
+    (a, b)
+}
+
 pub fn c14(r: &mut Rng, out: &mut Out, n: usize) {
     for _ in 0..n {
         let scale = r.pick(&[1., 10., 1e3]);
-        let bx = any_box(r, scale);
+        // the corners go through `BBox3D::new` in the order drawn ("any corner order" is part of the property):
+        // the `bb.newhit` line carries the raw corners, the `bb.hit` line the normalised box
+        let (ca, cb) = any_corners(r, scale);
+        let raw = r.below(2) == 0;
+        let bx = BBox3D::new(ca, cb);
         // a target point: inside the box, or clearly outside
         let inside = Point3D::new(
             r.range(bx.min.x as f64, bx.max.x as f64),
@@ -734,9 +752,16 @@ pub fn c14(r: &mut Rng, out: &mut Out, n: usize) {
         }
         let inv = Vector3D::new(1. / d.x, 1. / d.y, 1. / d.z);
         let ray = Ray3D { origin, direction: d };
-        out.case(
-            &format!("bb.hit {} {} {}", hbox(&bx), hray(&ray), hv(inv)),
-            hb(bx.intersect(&ray, &inv)),
-        );
+        if raw {
+            out.case(
+                &format!("bb.newhit {} {} {} {}", hp(ca), hp(cb), hray(&ray), hv(inv)),
+                hb(BBox3D::new(ca, cb).intersect(&ray, &inv)),
+            );
+        } else {
+            out.case(
+                &format!("bb.hit {} {} {}", hbox(&bx), hray(&ray), hv(inv)),
+                hb(bx.intersect(&ray, &inv)),
+            );
+        }
     }
 }
